@@ -3,7 +3,6 @@
 import json, subprocess, sys
 
 NA = {
- "C04": "round-trip equality over all values is entirely a statement about protojson/encoding/json/strconv/time/base64; once those are assumed no contract on repository code remains, and the codecs are schema-dependent emitted text (DESIGN.md section 5)",
  "C08": "needs the execution semantics of emitted TypeScript on a JS runtime; there is no TypeScript verifier here and a Go VC generator cannot give the emitted text a meaning (DESIGN.md section 5)",
 }
 PENDING = "not claimed yet: contracts for this property are still being written (DESIGN.md build order)"
@@ -14,11 +13,16 @@ CLAIMED = {
    design="4 (C01)",
    note="Trusted: strconv (incl. floats), net/url escaping, ServeMux, protojson/proto and the custom codecs of C04-C08. Per-RPC emitted client text (URL assembly, query encoding) is verified on the extraction schema and exercised by the family only (bounded over schemas).",
    technique="contract-based deductive verification: agreement lemmas over verified contracts of the deciding generator functions and of the extracted emitted templates (event/at-call tables), z3/cvc5 race; bounded client-server end-to-end family as replayer"),
+ "C04": dict(
+   text="Partial, and labelled so. Deductive: for one message per codec kind of the extraction schema (int64_encoding=NUMBER signed and unsigned, timestamp_format UNIX_SECONDS / UNIX_MILLIS / DATE, the four bytes alphabets, nullable string and number) the emitted MarshalJSON and UnmarshalJSON are verified against specification functions transcribed from annotations.proto: the encoder writes exactly specEnc(protojson's own object, field values), the decoder hands exactly specDec(decoded request object) to the strict protojson decoder with the message as target (whole-map equalities as at-call obligations on the real emitted code, all inputs); lemmas then prove specDec(specEnc(P, v)) = P key by key for every value (up to the documented truncation for timestamps), from trusted round-trip axioms of encoding/json numbers and strings, base64/hex and the date layout. go-http / go-client equivalence is the C14 congruence rule. Bounded: a round-trip family builds one message per annotation kind (13 constructs) with both Go plugins and runs 150 encode/decode and canonical-document cases on the emitted code (quick tier too). It found that the flatten decoder lost every flattened child (repaired, fix: 3d19da0) and seven known findings (children of flatten / oneof codecs go through encoding/json, enum custom values are not decodable, go-client has no unwrap codec).",
+   design="4 (C04)",
+   note="Message equality itself rests on protojson's round trip (trusted). Enum, empty_behavior, flatten, oneof and unwrap codecs and every message outside the extraction schema are covered only by the bounded family and the congruence rule. The TS client's canonical form is represented by hand-written documents, no TypeScript is run.",
+   technique="contract-based deductive verification of extracted emitted encoder/decoder pairs against spec functions (at-call obligations, whole-map equality) + inverse lemmas over trusted library round-trip axioms; structural congruence rule; bounded round-trip family on the emitted code as replayer and stand-in"),
  "C05": dict(
-   text="Partial, and labelled so. Deductive: the annotation getters that decide the wire form are proved against the specification tables (wire.spec); one representative emitted codec - the int64_encoding=NUMBER MarshalJSON of a message of the extraction schema - is verified for all values (each annotated field is written as the JSON number of its own value in its own type, omitted when zero, through event obligations on the real emitted code with trusted decimal-printing axioms); the server's encoder choice (custom codec only for a top-level json.Marshaler, protojson otherwise) is proved on the emitted template; the two plugins' codec emitters are congruent. Bounded: a depth family runs the emitted server on 5 annotated constructs x 5 contexts and compares the wire form with the documented one (quick tier too). It shows that annotations are lost below the top-level message and that enum custom values are never used: six known findings.",
+   text="Partial, and labelled so. Deductive: the annotation getters that decide the wire form are proved against the specification tables (wire.spec); the emitted MarshalJSON of one message per kind of the extraction schema - int64_encoding=NUMBER (signed, unsigned), the three timestamp formats, the four bytes alphabets, nullable, a root-unwrap list - is verified for all values against specification functions transcribed from annotations.proto (whole-map equality with protojson's own object rewritten under exactly the annotated keys; at-call obligations on the real emitted code); the server's encoder choice (custom codec only for a top-level json.Marshaler, protojson otherwise) is proved on the emitted template; the two plugins' codec emitters are congruent. Bounded: a depth family runs the emitted server on 5 annotated constructs x 5 contexts and compares the wire form with the documented one (quick tier too). It shows that annotations are lost below the top-level message and that enum custom values are never used: six known findings.",
    design="4 (C05)",
-   note="The other codecs (enum, nullable, empty_behavior, timestamp, bytes, flatten, oneof, unwrap) are covered only by the family and the congruence rule. protojson is trusted.",
-   technique="contract-based deductive verification of one extracted emitted codec (event/at-call obligations, trusted printing axioms) and of the encoder-choice template; bounded depth family over httptest as replayer and stand-in"),
+   note="The other codecs (enum, empty_behavior, flatten, oneof, the other unwrap shapes) and messages outside the extraction schema are covered only by the family and the congruence rule. protojson is trusted.",
+   technique="contract-based deductive verification of extracted emitted encoders against spec functions (event/at-call obligations) and of the encoder-choice template; bounded depth family over httptest as replayer and stand-in"),
  "C06": dict(
    text="Partial. Deductive: the OpenAPI scalar schema table (type, format, the hex pattern, unsigned minimum), the timestamp table and the enum schema (integer enum of numbers / string enum of custom-or-proto names, one entry per value) are proved against the documented wire form for every field (at-call obligations on the schema object handed to libopenapi, conditioned on the absence of buf.validate rules, which C19 covers), path and query parameter lists are proved (C18 contracts), and lemmas show the OpenAPI, TypeScript and wire tables describe the same JSON values. Bounded: the response bodies the emitted Go server sends for the C05 family are validated with python jsonschema (2020-12) against the published component schemas (quick tier too); five known findings, all rooted in the C05 depth defect.",
    design="4 (C06)",
